@@ -100,8 +100,18 @@ impl<F: Future> Future for Perturb<F> {
                 }
             }
         }
-        self.inner.as_mut().poll(cx)
+        // which spawned task is running (for event lines that want to say who did something)
+        let prev = CURRENT_TASK.swap(self.idx as i64, Ordering::SeqCst);
+        let r = self.inner.as_mut().poll(cx);
+        CURRENT_TASK.store(prev, Ordering::SeqCst);
+        r
     }
+}
+
+static CURRENT_TASK: std::sync::atomic::AtomicI64 = std::sync::atomic::AtomicI64::new(-1);
+/// index of the spawned task being polled right now (-1 outside any spawned task)
+pub fn current_task() -> i64 {
+    CURRENT_TASK.load(Ordering::SeqCst)
 }
 
 pub fn spawn_perturbed<F>(f: F) -> tokio::task::JoinHandle<F::Output>
